@@ -39,8 +39,7 @@ WorksX2 == {W22}
 W22q == << <<Plain, R("stop")>>, <<R("startTestRun"), TestTg>> >>
 WorksX2q == {W22q}
 \* deep random behaviours
-WorksS == [1..3 -> SeqsUpTo({Plain, Tagged, Ungl, TestTg, R("stop"), R("done")}, 3)]
-          \cup [1..4 -> SeqsUpTo({Plain, Tagged, R("stop")}, 2)]
+WorksS == [1..3 -> SeqsUpTo({Tagged, Ungl, R("stop")}, 2)]
 
 RECURSIVE MaxCalls(_)
 MaxCalls(s) == IF s = <<>> THEN 0 ELSE (IF Head(s).kind = "test" THEN 7 ELSE 1) + MaxCalls(Tail(s))
@@ -56,5 +55,7 @@ FaultsX2(w) == {{}, {<<1, 4>>}, {<<2, 1>>}}
 
 MCInit == \E w \in Works : \E fs \in FaultChoices(w) : InitWith(w, fs)
 Spec == MCInit /\ [][Next]_vars
+NextNoDone == \E t \in Threads : Step(t)
+SimSpec == MCInit /\ [][NextNoDone]_vars
 FairSpec == MCInit /\ [][Next]_vars /\ Fairness
 =============================================================================
